@@ -52,8 +52,9 @@ TVT = "Ts0"
 
 
 def site(e):
-    """exc_site with the per-case class numbers removed (otherwise every case is its own bucket)."""
-    return re.sub(r"\d+", "N", exc_site(e))
+    """exc_site with the per-case class numbers / type names removed (otherwise every case is its own bucket)."""
+    s = re.sub(r"\d+", "N", exc_site(e))
+    return re.sub(r"(<generated>:model_(?:dumper|loader)).*", r"\1", s)    # the rest spells the model type
 
 
 class Skip(Exception):
